@@ -481,6 +481,30 @@ fn chunks_of(v: &Val) -> Vec<Vec<u8>> {
     v.l().iter().map(|c| c.s().to_vec()).collect()
 }
 
+/// RLIMIT_FSIZE soft limit for the duration of one call; restored on drop
+struct FsizeLimit {
+    old: libc::rlimit,
+}
+impl FsizeLimit {
+    fn set(bytes: u64) -> FsizeLimit {
+        unsafe {
+            libc::signal(libc::SIGXFSZ, libc::SIG_IGN);
+            let mut old = libc::rlimit { rlim_cur: 0, rlim_max: 0 };
+            assert_eq!(libc::getrlimit(libc::RLIMIT_FSIZE, &mut old), 0);
+            let new = libc::rlimit { rlim_cur: bytes as libc::rlim_t, rlim_max: old.rlim_max };
+            assert_eq!(libc::setrlimit(libc::RLIMIT_FSIZE, &new), 0);
+            FsizeLimit { old }
+        }
+    }
+}
+impl Drop for FsizeLimit {
+    fn drop(&mut self) {
+        unsafe {
+            libc::setrlimit(libc::RLIMIT_FSIZE, &self.old);
+        }
+    }
+}
+
 /// clears the hook clock when the case ends (also on panic)
 struct ClockGuard;
 impl Drop for ClockGuard {
@@ -675,6 +699,22 @@ pub fn run(case: &Val) -> Val {
                     None => false,
                 };
                 FAIL_AFTER.store(false, Ordering::SeqCst);
+                next_id += 1;
+                if !ok {
+                    errors += 1;
+                }
+            }
+            11 if o.len() > 2 && o[2].n() == 1 => {
+                // the record is fine, the disk is full: the active file cannot grow by a single byte during the call
+                // (RLIMIT_FSIZE = its current size, SIGXFSZ ignored), so the flush at the end of append fails
+                let size = std::fs::metadata(ctx.active()).map(|m| m.len()).unwrap_or(0);
+                let ok = {
+                    let _full = FsizeLimit::set(size);
+                    match &app {
+                        Some(a) => append_id(a, next_id),
+                        None => false,
+                    }
+                };
                 next_id += 1;
                 if !ok {
                     errors += 1;
